@@ -434,6 +434,9 @@ func recContent(c Case, data []byte) string {
 			if ch.Lsn != l {
 				continue
 			}
+			if want := fmt.Sprintf("%X/%X", uint32(l>>32), uint32(l)); r.Lsn != want {
+				return fmt.Sprintf("the change at position %d must carry lsn %q (high and low 32 bits in hexadecimal), the record says %q", l, want, r.Lsn)
+			}
 			if r.Table != ch.Table || r.Op != "INSERT" {
 				return fmt.Sprintf("position %d is an INSERT into %s, the record says %s on %q", l, ch.Table, r.Op, r.Table)
 			}
@@ -459,7 +462,9 @@ func recLsn(data []byte) (uint64, string) {
 	}
 	hi, _ := strconv.ParseUint(parts[0], 16, 64)
 	lo, _ := strconv.ParseUint(parts[1], 16, 64)
-	return hi<<32 | lo, r.Txn
+	// (lenient on purpose: a low part wider than 32 bits is taken modulo 2^32 here so that the record can
+	// still be attributed to its change; recContent then compares the text with the exact rendering)
+	return hi<<32 | (lo & 0xffffffff), r.Txn
 }
 
 func (f *fakeKinesis) PutRecords(in *kinesis.PutRecordsInput) (*kinesis.PutRecordsOutput, error) {
